@@ -351,8 +351,13 @@ def classify_collisions(ck, fns, classes):
             wb = {k: v for k, v in b2.items() if k != "rpkg"}
             if {a["k"], b2["k"]} == {"func", "global"} and a["pkg"] == b2["pkg"] and a["name"] == b2["name"]:
                 why = "exception:func-and-var-one-identifier"
-            elif a["k"] == "wrap" and b2["k"] == "wrap" and wa == wb:
+            elif a["k"] == "wrap" and b2["k"] == "wrap" and wa == wb and path_of(a["rpkg"]) != path_of(b2["rpkg"]):
+                # two really different receiver packages (fixed in /repo by ae2205f: must not fire any more)
                 why = "wrapper-name-drops-receiver-package"
+            elif a["k"] == "wrap" and b2["k"] == "wrap" and wa == wb:
+                # the receiver packages differ only by llgo's overlay prefix, which PathOf strips by design:
+                # runtime/internal/lib/x/a IS package x/a (the overlay replaces it; both never exist in one program)
+                why = "exception:patch-prefix-merge"
             elif any(p.startswith(PATCH) for p in paths) or PATCH in json.dumps([a, b2]):
                 why = "exception:patch-prefix-merge"
             elif any("." in path_of(p).rsplit("/", 1)[-1] for p in paths):
